@@ -4,9 +4,9 @@
    This file contains only statements, each closed by [exact] (or by complete
    evaluation for the obligations over the regenerated tables). *)
 From Coq Require Import ZArith List Bool String.
-From BV Require Import Gen.C20Consts Gen.C20AgSkeleton Gen.C20MuxEff Gen.C20DataPath.
-From BV Require Import Model.Rfcomm Model.RfcommMux Model.RfcommSm Model.RfcommSm2 Model.RfcommEff Model.RfcommRxQueue Model.HfpSlc Model.AtSkeleton.
-From BV Require Import Proofs.Rfcomm Proofs.RfcommMux Proofs.RfcommSm Proofs.RfcommSm2 Proofs.RfcommEff Proofs.RfcommSrc Proofs.RfcommRxQueue Proofs.HfpSlc Proofs.AtSkeleton.
+From BV Require Import Gen.C20Consts Gen.C20AgSkeleton Gen.C20MuxEff Gen.C20DataPath Gen.C20AtReaders.
+From BV Require Import Model.Rfcomm Model.RfcommMux Model.RfcommSm Model.RfcommSm2 Model.RfcommEff Model.RfcommRxQueue Model.HfpSlc Model.AtSkeleton Model.AtFramer.
+From BV Require Import Proofs.Rfcomm Proofs.RfcommMux Proofs.RfcommSm Proofs.RfcommSm2 Proofs.RfcommEff Proofs.RfcommSrc Proofs.RfcommRxQueue Proofs.HfpSlc Proofs.AtSkeleton Proofs.AtFramer.
 Import ListNotations.
 Close Scope string_scope.
 Open Scope list_scope.
@@ -373,6 +373,50 @@ Theorem C20_live_indicators_and_codec_agree : forall (H : hf_cfg) (C : ag_cfg),
     lv_hf_status s = lv_ag_status s /\ lv_hf_codec s = lv_ag_codec s.
 Proof. exact live_agree. Qed.
 Print Assumptions C20_live_indicators_and_codec_agree.
+
+(* ---------- the AT readers are independent of the RFCOMM segmentation ----------
+   HfProtocol._read_at (responses, <CR><LF>) and AgProtocol._read_at (commands, <CR>) are the
+   sinks of the data link.  For every byte string and EVERY way of cutting it into chunks
+   (frame sizes, credit bytes, batching), the lines handed to the parser, in order, and the
+   bytes left in read_buffer are those of one call with the whole string *)
+Theorem C20_hf_reader_chunking_irrelevant : forall chunks,
+  feed_chunks hf_reader [] chunks = feed hf_reader [] (List.concat chunks).
+Proof. intros chunks. exact (chunking_irrelevant hf_reader hf_delim_nonempty chunks [] eq_refl). Qed.
+Print Assumptions C20_hf_reader_chunking_irrelevant.
+
+Theorem C20_ag_reader_chunking_irrelevant : forall chunks,
+  feed_chunks ag_reader [] chunks = feed ag_reader [] (List.concat chunks).
+Proof. intros chunks. exact (chunking_irrelevant ag_reader ag_delim_nonempty chunks [] eq_refl). Qed.
+Print Assumptions C20_ag_reader_chunking_irrelevant.
+
+(* feed fusion, from any buffer content *)
+Theorem C20_reader_feed_fusion : forall buf b c,
+  feed hf_reader buf (b ++ c) =
+    (let '(l1, r1) := feed hf_reader buf b in let '(l2, r2) := feed hf_reader r1 c in (l1 ++ l2, r2)) /\
+  feed ag_reader buf (b ++ c) =
+    (let '(l1, r1) := feed ag_reader buf b in let '(l2, r2) := feed ag_reader r1 c in (l1 ++ l2, r2)).
+Proof.
+  intros buf b c. split;
+    [exact (feed_fusion hf_reader hf_delim_nonempty buf b c)|exact (feed_fusion ag_reader ag_delim_nonempty buf b c)].
+Qed.
+Print Assumptions C20_reader_feed_fusion.
+
+(* the framing statements of the two readers in the source (pinned statement by statement by
+   the translator on every run) have the delimiter, widths and empty-line clause of the
+   readers the theorems above are about *)
+Theorem C20_at_readers_match_source :
+  src_hf_reader_shape = shape_of hf_reader /\ src_ag_reader_shape = shape_of ag_reader.
+Proof. vm_compute. split; reflexivity. Qed.
+Print Assumptions C20_at_readers_match_source.
+
+(* the seeded "nothing to parse unless this chunk contains a delimiter" shortcut is refuted:
+   <CR><LF>OK<CR> | <LF> *)
+Theorem C20_seeded_reader_refuted :
+  feed_chunks_seeded hf_reader [] [[13; 10; 79; 75; 13]; [10]] = ([], [79; 75; 13; 10]) /\
+  feed_chunks hf_reader [] [[13; 10; 79; 75; 13]; [10]] = ([[79; 75]], []) /\
+  feed hf_reader [] [13; 10; 79; 75; 13; 10] = ([[79; 75]], []).
+Proof. exact seeded_reader_refuted. Qed.
+Print Assumptions C20_seeded_reader_refuted.
 
 (* ---------- AT final result codes (regenerated skeletons) ---------- *)
 (* re-checked on every run: for every handler of AgProtocol, every path through the
